@@ -63,3 +63,32 @@ pub fn sweep_active(on: bool) {
         SWEEPS.fetch_add(1, Ordering::Relaxed);
     }
 }
+
+/// Monitor M-once: inside one parallel collection phase every work item (object) is taken
+/// from the pools and processed exactly once.
+static ONCE: std::sync::Mutex<(String, Option<std::collections::HashSet<usize>>)> = std::sync::Mutex::new((String::new(), None));
+pub static ONCE_VISITS: AtomicU64 = AtomicU64::new(0);
+
+pub fn once_begin(phase: &str) {
+    if !crate::is_active() {
+        return;
+    }
+    let mut g = ONCE.lock().unwrap();
+    g.0 = phase.to_string();
+    g.1 = Some(std::collections::HashSet::new());
+}
+
+pub fn once_visit(addr: usize) {
+    if !crate::is_active() {
+        return;
+    }
+    ONCE_VISITS.fetch_add(1, Ordering::Relaxed);
+    let mut g = ONCE.lock().unwrap();
+    let phase = g.0.clone();
+    if let Some(set) = g.1.as_mut() {
+        if !set.insert(addr) {
+            drop(g);
+            fail("M-once", &format!("object 0x{:x} was taken from the work pools twice in one {} phase", addr, phase));
+        }
+    }
+}
